@@ -6,7 +6,7 @@
    lookup is a function of the state that returns no state (it cannot modify the e-graph).
    NOT PROVED: equivariance of insertion under renaming and that a term equal to a represented one
    through unions of subterms is found; decided per run by probes against implementation and model. *)
-From SE Require Import EGraph.Model EGraph.ModelMachine EGraph.ModelFacts EGraph.Model9 EGraph.UnionFindFacts EGraph.InvariantFacts.
+From SE Require Import EGraph.Model EGraph.ModelMachine EGraph.ModelFacts EGraph.Model9 EGraph.UnionFindFacts EGraph.InvariantFacts EGraph.HashconsFacts.
 
 Theorem C09_known_node : forall s n a, eg_lookup s n = Ok (Some a) -> eg_add n s = Ok (a, s).
 Proof. exact eg_add_known. Qed.
@@ -53,3 +53,18 @@ Theorem C09_allocation_frame : forall sl syn s i s', uf_ok s -> eg_wf s -> alloc
   (forall n, List.Forall (fun a => (N.to_nat (aid a) < List.length (unionfind s))%nat) (app_occ n) -> shape s' n = shape s n).
 Proof. exact alloc_eclass_frame. Qed.
 Print Assumptions C09_allocation_frame.
+
+(* KNOWN TERMS CREATE NOTHING, for EVERY state (EGraph/HashconsFacts.v): if lookup_rec finds the term, inserting it
+   returns exactly that invocation and leaves the whole state unchanged; in particular a second insertion creates
+   nothing whenever the lookup after the first one hits.  That the lookup after an insertion DOES hit is proved for
+   insertion-only states (C09_lookup_after_add) and checked executably on all explored states; the canonical-shape
+   invariant it rests on (no stale shapes once an operation has returned) is proved for every reachable state
+   (C08_structure_consistent_reachable). *)
+Theorem C09_known_term_insertion_is_identity : forall t s a, lookup_rec s t = Ok (Some a) -> add_expr t s = Ok (a, s).
+Proof. exact lookup_rec_add_expr. Qed.
+Print Assumptions C09_known_term_insertion_is_identity.
+
+Theorem C09_second_insertion_creates_nothing : forall t s a s1 a',
+  add_expr t s = Ok (a, s1) -> lookup_rec s1 t = Ok (Some a') -> add_expr t s1 = Ok (a', s1).
+Proof. exact second_insertion_creates_nothing. Qed.
+Print Assumptions C09_second_insertion_creates_nothing.
